@@ -573,8 +573,12 @@ func c15RefusalCase(i int) core.Result {
 	r.TraceHash = uint64(core.NewHash().Str(out).Str(died))
 	r.Inc("F9.refused_statement_followed_by_more."+t.name, 1)
 	switch {
+	case out == "start;LEAK8" && died == "":
+		// not refused at all, and everything ran in order: an interpreter whose limits lie further out
+		// (the jump-distance table checks the values computed at these sizes)
+		r.Inc("accepted_and_equal", 1)
 	case strings.Contains(out, "LEAK"):
-		r.Violation = &core.Violation{Clause: "refused-statement-executed", Detail: fmt.Sprintf("the statement cannot be encoded, yet its first instruction ran: output %q, loop ended with %q", trunc(out, 300), died), History: h}
+		r.Violation = &core.Violation{Clause: "refused-statement-executed", Detail: fmt.Sprintf("the statement was refused or broke off, yet its first instruction ran: output %q, loop ended with %q", trunc(out, 300), died), History: h}
 	case !strings.HasPrefix(out, "start;"):
 		r.Violation = &core.Violation{Clause: "refusal-lost-earlier-output", Detail: fmt.Sprintf("output %q", trunc(out, 300)), History: h}
 	case died != "":
@@ -592,7 +596,7 @@ func c15RefusalCase(i int) core.Result {
 
 // ---- definitions beyond instruction 2^16
 
-const c15LateCases = 6
+const c15LateCases = 10
 
 // c15LateCase: sessions that are more than 2^16 instructions long before small functions,
 // closures, generators and loops are defined and used: entry points, jump targets and context
@@ -651,7 +655,75 @@ func c15LongSession(variant int) core.Result {
 	return r
 }
 
+// c15BigText: one top-level statement of 70 KiB / 200 KiB of source (a function that is defined and
+// never called, body lines flat or indented) between two ordinary statements, through node.Loop:
+// the statement either works as a whole (nothing of its body runs, because it is never called) or is
+// refused as a whole; in no case may part of its text be taken for top-level statements.
+func c15BigText(variant int) core.Result {
+	var r core.Result
+	kb := []int{70, 200}[variant/2]
+	indent := []string{"", "  "}[variant%2]
+	h := &Hist{Flavour: "script", Notes: fmt.Sprintf("a %d KiB function definition that is never called, body lines indented by %q", kb, indent)}
+	r.NonTrivial = true
+	r.Key = uint64(core.NewHash().Str("big-text").Int(variant))
+	r.Sample = h
+	var b strings.Builder
+	b.WriteString("write(\"start;\")\nbig = (q) -> {\n")
+	for n := 0; b.Len() < kb<<10; n++ {
+		fmt.Fprintf(&b, "%sq = ~q\n%swrite(\"LEAK\")\n", indent, indent)
+	}
+	b.WriteString("}\nwrite(\"end\")\n")
+	h.add("write(\"start;\")")
+	h.add("big = (q) -> { ... " + fmt.Sprint(b.Len()) + " bytes ... }")
+	h.add("write(\"end\")")
+	f, err := os.CreateTemp(shmDir(), "simcalc-c15-*")
+	if err != nil {
+		r.Discard = "tempfile"
+		return r
+	}
+	name := f.Name()
+	f.WriteString(b.String())
+	f.Close()
+	defer os.Remove(name)
+	died := ""
+	func() {
+		defer func() {
+			if p := recover(); p != nil {
+				died = fmt.Sprint(p)
+			}
+		}()
+		s := sess.New()
+		s.Budget = 5_000_000
+		s.Activate()
+		fr := node.NewFReader(name)
+		defer fr.Close()
+		node.Loop(fr, parser.Type{}, s.VM, false)
+	}()
+	out := collapseReports(sess.TakeOutput())
+	r.Statements += 3
+	r.TraceHash = uint64(core.NewHash().Str(out).Str(died))
+	r.Inc("F9.big_text_statement", 1)
+	switch {
+	case strings.Contains(out, "LEAK"):
+		r.Violation = &core.Violation{Clause: "part-of-statement-executed", Detail: fmt.Sprintf("body lines of a function that is never called ran as statements: output %q, loop ended with %q", trunc(out, 200), died), History: h}
+	case !strings.HasPrefix(out, "start;"):
+		r.Violation = &core.Violation{Clause: "refusal-lost-earlier-output", Detail: fmt.Sprintf("output %q", trunc(out, 200)), History: h}
+	case died != "":
+		r.Inc("refused_at_compile_time", 1)
+	case out == "start;end":
+		r.Inc("accepted_and_equal", 1)
+	case strings.HasSuffix(out, "end"):
+		r.Inc("refusal_reported_and_survived", 1) // something was printed about the big statement; the session went on
+	default:
+		r.Violation = &core.Violation{Clause: "statement-after-refusal-differs", Detail: fmt.Sprintf("output %q", trunc(out, 200)), History: h}
+	}
+	return r
+}
+
 func c15LateCase(i int) core.Result {
+	if i >= 6 {
+		return c15BigText(i - 6)
+	}
 	if i >= 4 {
 		return c15LongSession(i - 4)
 	}
